@@ -39,6 +39,10 @@ def d1_bits(ctx):
         raise AnalysisError(f"split_sync: result is not a bit-row array ({out.kind})")
     ctx.check(out.data == WORD, fi, fi.node, f"row = {out.data}", "decoded column k is bit k for every 16-bit word",
               f"decoded columns are {out.data}: line k is not bit k (e.g. column 0 carries {out.data[0]})", key="layout")
+    ctx.check(out.dtype in ("int8", "int16", "int32", "int64", "int", "float32", "float64"), fi, fi.node, f"dtype of the decoded lines: {out.dtype or 'unknown'}",
+              "decoded lines are signed (edge detection takes differences: 1 -> 0 must give -1)",
+              f"decoded lines are returned as {out.dtype or 'the raw unpackbits output (uint8)'}: np.diff of an unsigned line wraps a falling edge to 255, "
+              "so fronts/rises/falls on a line read through the reader report wrong polarities and spurious edges", key="signed")
 
 
 def _edge_fn(ctx, q, need_abs):
@@ -172,6 +176,6 @@ def d3_read_sync(ctx):
 
 
 def run(ctx):
-    d1_bits(ctx)
-    d2_edges(ctx)
-    d3_read_sync(ctx)
+    ctx.run(d1_bits)
+    ctx.run(d2_edges)
+    ctx.run(d3_read_sync)
